@@ -163,6 +163,13 @@ def rdFuncs : Nat → List String → Option (List FuncDecl)
     | _, _ => none
   | _ + 1, _ => none
 
+def mapOptS {α β : Type} (f : α → Option β) : List α → Option (List β)
+  | [] => some []
+  | x :: xs =>
+    match f x, mapOptS f xs with
+    | some y, some ys => some (y :: ys)
+    | _, _ => none
+
 def namesOp (ws : List String) : String :=
   match ws with
   | mn :: n :: rest =>
@@ -186,6 +193,14 @@ def handle (line : String) : String :=
     | some bs => dump bs
     | none => "bad-op hex"
   | "names" :: ws => namesOp ws
+  | "label" :: l :: stk =>
+    -- `stk` innermost first
+    match parseHex l, mapOptS rdOpt stk with
+    | some lb, some st =>
+      match resolveLabel st lb with
+      | some i => s!"some {i}"
+      | none => "none"
+    | _, _ => "bad-op"
   | _ => "bad-op"
 
 def main : IO Unit := lineLoop handle
